@@ -815,6 +815,17 @@ func (ev *Ev) call(e *SExpr) *Val {
 	case "val":
 		v := ev.eval(args[0])
 		return mathVal(bigval(ev.st, v.X))
+	case "sorted":
+		// sorted(s): exactly the window s of its backing array is the one sort.Sort / sort.Stable last sorted (ghost)
+		v := ev.eval(args[0])
+		sl, isS := under(v.T).(*types.Slice)
+		if v.K != KSlice || !isS {
+			specFail("sorted(s): s must be a slice")
+		}
+		root := "S:" + tstr(sl.Elem())
+		so := ev.st.heapGet(root+"#sortedOff", SArr(SInt, SInt))
+		sn := ev.st.heapGet(root+"#sortedLen", SArr(SInt, SInt))
+		return boolVal(And(Eq(Select(so, v.X), v.Off), Eq(Select(sn, v.X), v.Len)))
 	case "visited":
 		// visited(m, k): the current range loop over the map m has already produced key k (ghost, see exec.go *ssa.Range)
 		m := ev.eval(args[0])
